@@ -3,12 +3,12 @@ import subprocess
 import common as c
 
 SETUPS = {
-    1: [{"op": "addrule", "body": {"k": "one", "a": ["A", "T"], "b": ["A", "T"]}, "hf": "B", "hv": "T"},
-        {"op": "addrule", "body": {"k": "one", "a": ["B", "T"], "b": ["B", "T"]}, "hf": "C", "hv": "T"}],
-    2: [{"op": "addrule", "body": {"k": "and", "a": ["A", "T"], "b": ["B", "F"]}, "hf": "C", "hv": "F"},
-        {"op": "addrule", "body": {"k": "one", "a": ["A", "F"], "b": ["A", "F"]}, "hf": "B", "hv": "F"}],
-    3: [{"op": "addrule", "body": {"k": "or", "a": ["A", "T"], "b": ["B", "T"]}, "hf": "C", "hv": "T"},
-        {"op": "addrule", "body": {"k": "one", "a": ["C", "T"], "b": ["C", "T"]}, "hf": "A", "hv": "T"}],
+    1: [{"op": "addrule", "body": {"k": "one", "a": ["A", "T"], "b": ["A", "T"]}, "hf": "B", "hv": "T", "bad": False},
+        {"op": "addrule", "body": {"k": "one", "a": ["B", "T"], "b": ["B", "T"]}, "hf": "C", "hv": "T", "bad": False}],
+    2: [{"op": "addrule", "body": {"k": "and", "a": ["A", "T"], "b": ["B", "F"]}, "hf": "C", "hv": "F", "bad": False},
+        {"op": "addrule", "body": {"k": "one", "a": ["A", "F"], "b": ["A", "F"]}, "hf": "B", "hv": "F", "bad": False}],
+    3: [{"op": "addrule", "body": {"k": "or", "a": ["A", "T"], "b": ["B", "T"]}, "hf": "C", "hv": "T", "bad": False},
+        {"op": "addrule", "body": {"k": "one", "a": ["C", "T"], "b": ["C", "T"]}, "hf": "A", "hv": "T", "bad": False}],
 }
 
 
